@@ -103,6 +103,7 @@ def generate(run_seed, tier):
            'mols': mols, 'pairs': pairs, 'cia_dirs': cia_dirs,
            'kmols': kmols, 'kt_dirs': kt_dirs,
            'cia_split': c.random() < 0.6, 'exo_orders': True,
+           'cia_shared_edge': c.random() < 0.35,
            'hdf5_variants': True,
            'logmag': c.choice([[-40, 0], [-30, -18], [-24, -20]])}
     o = st('ops')
@@ -226,6 +227,24 @@ class Stop(Exception):
     pass
 
 
+def _tie_sorted(wn, vals):
+    """vals on an ascending grid that may hold a wavenumber twice (two bands
+    sharing an edge): values within a run of equal wavenumbers in ascending
+    order, so that the arbitrary order of ties does not matter."""
+    wn = np.asarray(wn, dtype=float)
+    vals = np.array(vals, dtype=float)
+    i = 0
+    n = len(wn)
+    while i < n:
+        j = i + 1
+        while j < n and wn[j] == wn[i]:
+            j += 1
+        if j - i > 1:
+            vals[i:j] = np.sort(vals[i:j])
+        i = j
+    return vals
+
+
 def _close_arr(a, b, rel=1e-12, abs_=0.0):
     a = np.asarray(a, dtype=float)
     b = np.asarray(b, dtype=float)
@@ -274,6 +293,10 @@ def execute(case, keep_text=False):
                                    rs.randint(4, 12)) / 1e4
             wnB = ST.distinct_ints(rs, 10000000, 50000000,
                                    rs.randint(4, 12)) / 1e4
+            if cfg.get('cia_shared_edge'):
+                # the second band starts exactly where the first one ends
+                # (both files and tables then hold that wavenumber twice)
+                wnB = np.concatenate([[np.max(wnA)], wnB])
             groups = [(wnA, list(range(nT)))]
             if cfg.get('cia_split'):
                 # second wavenumber range present only for a sub-range of T
@@ -686,6 +709,10 @@ def execute(case, keep_text=False):
                                      (0.5 * (T[j] + T[j + 1]),
                                       0.5 * (x[j] + x[j + 1]))):
                         got = np.asarray(obj.cia(TT), dtype=float)
+                        wns = np.sort(np.asarray(t['wn'], dtype=float))
+                        if got.shape == wns.shape:
+                            got = _tie_sorted(wns, got)
+                        want = _tie_sorted(wns, want)
                         if not _close_arr(got, want, 1e-9, 1e-75):
                             viol('table-mismatch', fmt_of(obj) + ':cia',
                                  '%s at T=%r: CIA cross-section differs from '
